@@ -500,7 +500,7 @@ func run(c Case) (vstat.Outcome, error) {
 	rot, multi := 0, 0
 	for _, s := range w.Steps {
 		switch s.Op.Kind {
-		case "remove", "remove2", "read_key_change", "invite_revoke_rotate":
+		case "remove", "remove2", "read_key_change", "read_key_change_altenc", "invite_revoke_rotate":
 			rot++
 		case "batch":
 			multi++
@@ -851,6 +851,7 @@ func TestReplay(t *testing.T) {
 	outerT = t
 	t.Run("TestRandom", func(t *testing.T) { vstat.Replay(t, prop, "TestRandom", run) })
 	t.Run("TestOneToOne", func(t *testing.T) { vstat.Replay(t, prop, "TestOneToOne", runO2O) })
+	t.Run("TestSyncHandler", func(t *testing.T) { vstat.Replay(t, prop, "TestSyncHandler", runSH) })
 }
 
 // TestRegRecordsAfterRoot: minimised failure found by TestRandom on the pinned tree —
